@@ -375,3 +375,131 @@ Proof.
     destruct (mem_tail_ok (callf cprog fuel (S d)) fuel m p cs sz bs os sblk src R ltac:(lia) Hbs) as [m2 [E2 [R2 [S2 _]]]]; try assumption.
     rewrite E2. eexists. split; [reflexivity|]. split; assumption.
 Qed.
+
+(* ------------------------------------------------------------------ sbuf_chr *)
+Lemma wrap_I8_mod z : (wrap I8 z) mod 256 = z mod 256.
+Proof.
+  unfold wrap. cbn [ity_bits ity_signed andb]. change (2 ^ 8) with 256. change (2 ^ (8 - 1)) with 128.
+  destruct (128 <=? z mod 256).
+  - rewrite <- (Z.mod_add (z mod 256 - 256) 1 256) by lia. replace (z mod 256 - 256 + 1 * 256) with (z mod 256) by lia.
+    apply Z.mod_mod. lia.
+  - apply Z.mod_mod. lia.
+Qed.
+Lemma wrap_I8_idem z : wrap I8 (wrap I8 z) = wrap I8 z.
+Proof. unfold wrap at 1. rewrite wrap_I8_mod. reflexivity. Qed.
+Lemma byte_of_wrap z : byte_of (wrap I8 z) = byte_of z.
+Proof. unfold byte_of. rewrite wrap_I8_mod. reflexivity. Qed.
+Lemma byte_of_lt z : (byte_of z < 256)%N.
+Proof. unfold byte_of. pose proof (Z.mod_pos_bound z 256). lia. Qed.
+
+Definition chr_if : stmt := match fn_body cf_sbuf_chr with SSeq i _ => i | _ => SSkip end.
+Definition chr_tail : stmt := match fn_body cf_sbuf_chr with SSeq _ t => t | _ => SSkip end.
+Definition chr_cond : expr := match chr_if with SIf c _ _ => c | _ => EConst 0 end.
+Definition chr_newsz : expr := match chr_if with SIf _ (SExpr (ECall _ [_; e])) _ => e | _ => EConst 0 end.
+
+Lemma chr_cond_eval call (m : mem) p a n sz x :
+  nth_error m p = Some [a; VInt n; VInt sz] -> 0 <= n <= sz -> sz <= 2147483647 -> sz + 2 <= 2147483647 ->
+  let st := mkst [VPtr p 0; x] m in
+  eval call chr_cond st = Ok (VInt (b2z (sz <=? n + 2)), st).
+Proof.
+  intros Hp Hn Hsz Hfit st. destruct (ld3 _ _ _ _ _ Hp) as [L0 [L1 L2]].
+  unfold chr_cond, chr_if, st. cbn [fn_body cf_sbuf_chr]. xs. rewrite L1. xarithl L2. reflexivity.
+Qed.
+Lemma chr_newsz_eval call (m : mem) p a n sz x :
+  nth_error m p = Some [a; VInt n; VInt sz] -> 0 <= sz <= 2147483647 -> sbuf_fits sz 1 ->
+  let st := mkst [VPtr p 0; x] m in
+  eval call chr_newsz st = Ok (VInt (NEXTSZ sz 1), st).
+Proof.
+  intros Hp Hsz Hfit st. destruct (ld3 _ _ _ _ _ Hp) as [L0 [L1 L2]].
+  unfold sbuf_fits in Hfit. change SBUFSZ with 128 in Hfit. rewrite NEXTSZ_c.
+  unfold chr_newsz, chr_if, st. cbn [fn_body cf_sbuf_chr]. xarithl L2.
+  match goal with |- context [?a <? ?b] => destruct (Z.ltb_spec a b) as [L|L] end; xarithl L2.
+  - rewrite Z.max_r by lia. reflexivity.
+  - rewrite Z.max_l by lia. reflexivity.
+Qed.
+
+Lemma chr_tail_ok call fuel m p cs sz c :
+  sbuf_rep m p cs sz -> Z.of_nat (length cs) + 2 <= sz ->
+  let lc := [VPtr p 0; VInt c] in
+  exists m', exec call fuel chr_tail (mkst lc m) = ONormal (mkst lc m') /\
+    sbuf_rep m' p (cs ++ [wrap I8 c]) sz /\ sbuf_step m m' p /\ sbuf_datab m' p = sbuf_datab m p /\ length m' = length m.
+Proof.
+  intros R Hroom lc. pose proof (rep_p_lt _ _ _ _ R) as Hpl.
+  destruct R as [[-> [-> Hp]]|[b [rest [Hb [Hp [Hd [Hl [Hr Hz]]]]]]]]; [cbn [length] in Hroom; lia|].
+  set (n := Z.of_nat (length cs)) in *.
+  destruct (ld3 _ _ _ _ _ Hp) as [L0 [L1 L2]].
+  assert (DM : sbuf_datab m p = Some b) by (eapply datab_of; exact Hp).
+  assert (Hbl : (b < length m)%nat) by (apply nth_error_Some; congruence).
+  unfold chr_tail, lc. cbn [fn_body cf_sbuf_chr]. xs. rewrite L0. xs. rewrite L1. xarith.
+  cbn [fst snd]. destruct (st3 m p _ _ _ (VInt (n + 1)) Hp) as [_ [S1 _]]. rewrite S1. xs.
+  set (m1 := upd m p _).
+  assert (Hd1 : nth_error m1 b = Some (map VInt cs ++ rest)) by (unfold m1; rewrite mem_upd_other by auto; exact Hd).
+  rewrite wrap_I8_idem.
+  rewrite (store_ok m1 b _ (0 + 1 * n) _ Hd1) by (rewrite app_length, map_length; lia). xs.
+  replace (Z.to_nat (0 + 1 * n)) with (length (map VInt cs)) by (rewrite map_length; lia).
+  destruct rest as [|r0 rest]; [cbn [length] in Hr; lia|].
+  replace (upd (map VInt cs ++ r0 :: rest) (length (map VInt cs)) (VInt (wrap I8 c))) with (map VInt (cs ++ [wrap I8 c]) ++ rest).
+  2:{ unfold upd. rewrite firstn_app, Nat.sub_diag, firstn_all. cbn [firstn]. rewrite app_nil_r.
+      rewrite skipn_app, skipn_all2 by lia. replace (S (length (map VInt cs)) - length (map VInt cs))%nat with 1%nat by lia.
+      cbn [skipn app]. rewrite map_app, <- app_assoc. reflexivity. }
+  eexists. split; [reflexivity|].
+  assert (Hl1 : length m1 = length m) by (apply mlen_upd; exact Hpl).
+  assert (Hp1 : nth_error m1 p = Some [VPtr b 0; VInt (n + 1); VInt sz]) by (apply mem_upd_same; exact Hpl).
+  assert (D1 : sbuf_datab m1 p = sbuf_datab m p) by (rewrite DM; eapply datab_of; exact Hp1).
+  assert (S01 : sbuf_step m m1 p) by (apply step_upd_p; assumption).
+  split; [|split; [|split; [rewrite datab_upd_other by (auto; lia); exact D1|rewrite mlen_upd by lia; exact Hl1]]].
+  - right. exists b, rest. split; [exact Hb|].
+    split; [rewrite mem_upd_other by (auto; lia); rewrite Hp1, app_length; cbn [length]; unfold n; do 4 f_equal; lia|].
+    split; [apply mem_upd_same; lia|]. rewrite app_length. cbn [length] in *. split; [lia|]. split; [lia|exact Hz].
+  - apply (sbuf_step_trans _ m1); [exact S01|]. apply step_upd_data; [congruence|lia|exact Hb].
+Qed.
+
+Lemma sb_model_chr cs sz c : IoDefs.sbuf_chr (sb_model cs sz) (byte_of c)
+  = sb_model (cs ++ [wrap I8 c]) (sb_sz (IoDefs.sbuf_chr (sb_model cs sz) (byte_of c))).
+Proof.
+  unfold IoDefs.sbuf_chr, sb_model. cbn [sb_data sb_n sb_sz]. rewrite map_app, app_length, Nat2Z.inj_add. cbn [map length].
+  rewrite byte_of_wrap. reflexivity.
+Qed.
+(* the new capacity as a function of the old one and the length *)
+Definition chr_sz (n sz : Z) : Z := if sz <=? n + 2 then NEXTSZ sz 1 else sz.
+Lemma chr_sz_model cs sz c : sb_sz (IoDefs.sbuf_chr (sb_model cs sz) c) = chr_sz (Z.of_nat (length cs)) sz.
+Proof. unfold IoDefs.sbuf_chr, sb_model, chr_sz. cbn [sb_sz sb_n]. rewrite Z.geb_leb. reflexivity. Qed.
+
+Theorem tr_sbuf_chr m p cs sz c d fuel :
+  sbuf_rep m p cs sz -> sbuf_fits sz 1 ->
+  let sb' := IoDefs.sbuf_chr (sb_model cs sz) (byte_of c) in
+  exists m', callf cprog fuel (S (S d)) F_sbuf_chr [VPtr p 0; VInt c] m = Ok (VUndef, m') /\
+    sbuf_rep m' p (cs ++ [wrap I8 c]) (sb_sz sb') /\ sb' = sb_model (cs ++ [wrap I8 c]) (sb_sz sb') /\ sbuf_step m m' p.
+Proof.
+  intros R Hfit sb'. pose proof (rep_sz _ _ _ _ R) as Hsz. pose proof (rep_p_lt _ _ _ _ R) as Hpl.
+  assert (Hf : exists a, nth_error m p = Some [a; VInt (Z.of_nat (length cs)); VInt sz]).
+  { destruct R as [[-> [-> Hp]]|[b [rest [Hb [Hp _]]]]]; eauto. }
+  destruct Hf as [a Hp].
+  set (n := Z.of_nat (length cs)) in *.
+  assert (Hfit' := Hfit). unfold sbuf_fits in Hfit'.
+  pose proof (NEXTSZ_ge sz 1 ltac:(lia) ltac:(lia)) as Hge.
+  pose proof (NEXTSZ_le sz 1 ltac:(lia) ltac:(lia)) as Hle.
+  pose proof SBUFSZ_ge2 as Hsb.
+  assert (Hunit : SBUFSZ <= NEXTSZ sz 1) by (unfold NEXTSZ; apply ALIGN_ge_unit; lia).
+  pose proof (chr_cond_eval (callf cprog fuel (S d)) m p a n sz (VInt c) Hp ltac:(lia) ltac:(lia) ltac:(lia)) as Hc.
+  pose proof (chr_newsz_eval (callf cprog fuel (S d)) m p a n sz (VInt c) Hp ltac:(lia) Hfit) as Hn.
+  cbv zeta in Hc, Hn.
+  cut (exists m', callf cprog fuel (S (S d)) F_sbuf_chr [VPtr p 0; VInt c] m = Ok (VUndef, m') /\
+         sbuf_rep m' p (cs ++ [wrap I8 c]) (sb_sz sb') /\ sbuf_step m m' p).
+  { intros [m' [A [B C]]]. exists m'. split; [exact A|]. split; [exact B|]. split; [apply sb_model_chr|exact C]. }
+  unfold sb'. rewrite chr_sz_model. fold n. unfold chr_sz.
+  rewrite callf_S. change (nth_error cprog F_sbuf_chr) with (Some cf_sbuf_chr). cbv iota beta.
+  change (fn_nparams cf_sbuf_chr) with 2%nat. change (fn_nlocals cf_sbuf_chr) with 2%nat.
+  change (fn_body cf_sbuf_chr) with (SSeq (SIf chr_cond (SExpr (ECall F_sbuf_extend [ELocal 0; chr_newsz])) SSkip) chr_tail).
+  cbn [length Nat.eqb Nat.sub repeat app].
+  rewrite exec_seq, exec_if, Hc, truth_b2z.
+  destruct (Z.leb_spec sz (n + 2)) as [G|G].
+  - destruct (tr_sbuf_extend m p cs sz (NEXTSZ sz 1) d fuel R ltac:(lia)) as [m1 [E1 [R1 [S1 [D1 [Hl1 _]]]]]].
+    rewrite exec_expr, (eval_call2 (callf cprog fuel (S d)) F_sbuf_extend (ELocal 0) _ (mkst [VPtr p 0; VInt c] m) (VPtr p 0) _ eq_refl Hn).
+    cbn [memm locals]. rewrite E1. cbn [bind].
+    destruct (chr_tail_ok (callf cprog fuel (S d)) fuel m1 p cs (NEXTSZ sz 1) c R1 ltac:(lia)) as [m2 [E2 [R2 [S2 _]]]].
+    cbn [locals]. rewrite E2. eexists. split; [reflexivity|]. split; [exact R2|]. apply (sbuf_step_trans _ m1); assumption.
+  - rewrite exec_skip.
+    destruct (chr_tail_ok (callf cprog fuel (S d)) fuel m p cs sz c R ltac:(lia)) as [m2 [E2 [R2 [S2 _]]]].
+    rewrite E2. eexists. split; [reflexivity|]. split; assumption.
+Qed.
